@@ -110,7 +110,7 @@ pub fn judge_weather(ctx: &Ctx, l: &mut Local, p: &Params, site: Site, date: Nai
 
 pub fn explore(ctx: &Ctx) {
     // call sequences from non-initial states (see history.rs)
-    crate::history::explore(ctx, "params", &crate::history::alphabet_params(), 2);
+    crate::history::explore(ctx, "params", &crate::history::alphabet_params(), if ctx.tier == Tier::Thorough { 3 } else { 2 });
     let quick = ctx.tier == Tier::Quick;
     ctx.rule("every (site, date, params[, weather]) tuple is enumerated once; non-trivial = both Shurooq and Maghrib reported and judged against the reference ephemeris (altitude clause), resp. each weather variant compared with the weather-less call");
     ctx.assume("reference ephemeris Meeus ch.25 (self-tested); instant = requested civil date + (reported second + 0.5 s), also when the zone offset puts the event on the far side of local midnight; only within 10 minutes of 00:00 the neighbouring civil dates are admitted as well (the last correction step can carry an event across the boundary)");
